@@ -28,12 +28,16 @@ type gogen struct {
 
 func (g *gogen) pick(n int) int { return g.c.Choose(n) }
 
+// pick0 chooses among variants of a production that has already been paid for (which literal,
+// which operator): free of charge, so every variant is explored wherever the production is.
+func (g *gogen) pick0(n int) int { return g.c.ChooseCost(n, 0) }
+
 func (g *gogen) name(prefix string) string {
 	g.n++
 	return fmt.Sprintf("%s%d", prefix, g.n)
 }
 
-var ggLits = []string{"0", "1", "9223372036854775807", "1234567890123456789012345678901234567890", "1e100", "0x1p-2", "1.5", "2i", "'a'", `'\n'`, `'\''`, `"s"`, `"a\"b\\"`, "`raw\nline`", `""`, "0.1", "1_000", "0b101", "0o17", "0xFF", `'\u00e9'`, `"é\x00\xff"`, "1e-7", "100000.0"}
+var ggLits = []string{"0", "1", "9223372036854775807", "1234567890123456789012345678901234567890", "1e100", "0x1p-2", "1.5", "2i", "'a'", `'\n'`, `'\''`, `"s"`, `"a\"b\\"`, "`raw\nline`", `""`, "0.1", "1_000", "0b101", "0o17", "0xFF", `'\u00e9'`, `"é\x00\xff"`, "1e-7", "100000.0", "0X1F", "0B11", "1E3", "0O17", "0X1P-2", "1E3i", "0XFFFFFFFFFFFFFFFFFFFF", "0X1P-2i", "0B1i"}
 var ggPredecl = []string{"nil", "true", "int", "err", "iota", "string", "any", "false", "error", "byte", "rune", "float64", "uint8", "comparable"}
 var ggUnary = []string{"-", "+", "!", "^", "*", "&", "<-"}
 var ggBinary = []string{"+", "-", "*", "/", "%", "&", "|", "^", "<<", ">>", "&^", "&&", "||", "==", "!=", "<", "<=", ">", ">="}
@@ -97,15 +101,15 @@ func (g *gogen) expr(d int) string {
 	case 0:
 		return "x"
 	case 1:
-		return ggLits[g.pick(len(ggLits))]
+		return ggLits[g.pick0(len(ggLits))]
 	case 2:
-		return ggPredecl[g.pick(len(ggPredecl))]
+		return ggPredecl[g.pick0(len(ggPredecl))]
 	case 3:
 		return g.qual("X")
 	case 4:
-		return ggUnary[g.pick(len(ggUnary))] + g.expr(d+1)
+		return ggUnary[g.pick0(len(ggUnary))] + g.expr(d+1)
 	case 5:
-		return g.expr(d+1) + " " + ggBinary[g.pick(len(ggBinary))] + " " + g.expr(d+1)
+		return g.expr(d+1) + " " + ggBinary[g.pick0(len(ggBinary))] + " " + g.expr(d+1)
 	case 6: // call
 		n := g.pick(5)
 		args := g.exprs(d+1, n)
@@ -341,7 +345,7 @@ func (g *gogen) stmt(s, d int) string {
 	case 0:
 		return "x()"
 	case 1: // assignment
-		op := ggAssignOps[g.pick(len(ggAssignOps))]
+		op := ggAssignOps[g.pick0(len(ggAssignOps))]
 		switch n := g.pick(3); {
 		case n == 0 || op != "=" && op != ":=":
 			return "a " + op + " " + g.expr(d)
